@@ -48,8 +48,12 @@ class Interp1d:
 
     def __init__(self, x, y, kind="linear", axis=-1, copy=True, bounds_error=None, fill_value=math.nan,
                  assume_sorted=False):
-        if kind != "linear":
-            raise Unsupported(f"interp1d kind={kind}")
+        # any other kind (quadratic, cubic, nearest ...): an *opaque* interpolant - it reproduces the nodes and is otherwise
+        # an arbitrary function of the query (one unconstrained value per distinct query).  Properties that need more than
+        # that get a counterexample candidate, which the replay on the real library then confirms or not.
+        self.opaque = kind != "linear"
+        self.kind = kind
+        self._opaque_vals = {}
         x, y = _col(x), _col(y)
         if len(x.d) != len(y.d):
             raise ValueError("x and y arrays must be equal in length along interpolation axis.")
@@ -140,6 +144,15 @@ class Interp1d:
     def _one(self, q):
         if isinstance(q, Uninit):
             raise UninitRead()
+        if getattr(self, "opaque", False):
+            qp = lift(q).p
+            for k, xv in enumerate(self.x):
+                if lift(xv).p == qp:
+                    return self.y[k]
+            v = self._opaque_vals.get(qp)
+            if v is None:
+                v = self._opaque_vals[qp] = _fresh(f"interp_{self.kind}_{len(self._opaque_vals)}")
+            return v
         if not self.raw_bisect:
             qp = lift(q).p
             for k, xv in enumerate(self.x):
